@@ -40,10 +40,10 @@ TypeOK == /\ s \in Seq(Alphabet) /\ pc \in {"type", "scan", "done"} /\ i \in 1..
 StepInv == pc = "scan" => (st = Pre(s)[i] /\ width = DW(SubSeq(s, 1, i - 1)) )
 Refines == pc = "done" => width = DW(s)
 Bounded == pc = "done" => width <= ByteLen(s)
-Declarative == (pc = "done" /\ WellFormed(s)) => (width = DWDecl(s) /\ StripSeq(s) = StripDecl(s))
+Declarative == (pc = "done" /\ Parses(s)) => (width = DWDecl(s) /\ StripSeq(s) = StripDecl(s))
 Additive == (pc = "done" /\ ~HasEsc(s)) => \A k \in 0..Len(s) : DW(SubSeq(s, 1, k)) + DW(SubSeq(s, k + 1, Len(s))) = width
 InsertInvariant ==
-  (pc = "done" /\ WellFormed(s)) =>
+  (pc = "done" /\ Parses(s)) =>
      \A k \in 0..Len(s) : Pre(s)[k + 1] = "T" =>
         \A q \in Seqs : DW(SubSeq(s, 1, k) \o q \o SubSeq(s, k + 1, Len(s))) = width
 \* the lemma that lets per-word widths bound a line's width (C02): for strictly well-formed strings,
